@@ -326,9 +326,16 @@ pub async fn run_scenario(world: &mut World, req: &str, case: usize, out: &mut V
     let mut steps = 0usize;
     let max_steps = if thorough { 600_000 } else { 40_000 };
     let mut raw = vec![];
+    let wall = std::time::Instant::now();
     loop {
         steps += 1;
         if steps > max_steps { st.hit("scenario_step_limit"); break }
+        // a scenario takes a second or two of CPU; minutes mean that the node's work grows without bound (C18:
+        // maintenance work must stay bounded — e.g. refresh chains that multiply, as before the F18 repair)
+        if wall.elapsed().as_secs() > if thorough { 900 } else { 120 } {
+            st.fail(case, out.len(), &format!("[C18] the scenario was stopped after {} s of CPU at virtual time {} ms: the node's background work grows without bound", wall.elapsed().as_secs(), world.now() / MS));
+            break;
+        }
         // a racing call is issued without letting its instant pass first
         let next_racing = sim.flights.peek().map(|f| f.0.op.starts_with("racing ") && f.0.at <= sim.end).unwrap_or(false);
         let next_ext = sim.flights.peek().map(|f| if next_racing { f.0.at - 1 } else { f.0.at }).unwrap_or(u128::MAX).min(sim.end);
